@@ -63,6 +63,7 @@ fn agcdec_compare(path: &str, set: &SampleSet, ragc_out: Option<&Vec<(String, Ve
     rep.count("dec_packs_stored_raw", s.packs_stored_raw);
     rep.count("dec_full_packs", s.full_packs);
     rep.count("dec_placeholder_packs", s.placeholder_packs);
+    rep.count("dec_full_raw_group_packs", s.full_raw_group_packs);
     rep.count("dec_segments", s.segments);
     rep.count("dec_segments_reference", s.segments_ref);
     rep.count("dec_segments_delta", s.segments_delta);
